@@ -512,8 +512,17 @@ class TorControlProtocol(LineOnlyReceiver):
         keys = [strargs[i] for i in range(0, len(strargs), 2)]
         values = [strargs[i] for i in range(1, len(strargs), 2)]
 
+        for k in keys:
+            if k == '' or any(c in k for c in ' \t\r\n\v\f="'):
+                return defer.fail(
+                    RuntimeError("Invalid configuration key: {!r}".format(k))
+                )
+
         def maybe_quote(s):
-            if ' ' in s:
+            # a QuotedString as per control-spec, with C-style escapes
+            if any(c in s for c in ' \t\r\n\v\f"\\'):
+                s = s.replace('\\', '\\\\').replace('"', '\\"')
+                s = s.replace('\r', '\\r').replace('\n', '\\n').replace('\t', '\\t')
                 return '"%s"' % s
             return s
         values = [maybe_quote(v) for v in values]
